@@ -1,33 +1,37 @@
 #!/bin/sh
-# Regenerates coq/Gen/Funcs.v, coq/Gen/FuncsCarto.v and coq/Gen/FuncsLoop.v from the Go source under
+# Regenerates coq/Gen/Funcs.v, coq/Gen/FuncsCarto.v, coq/Gen/FuncsLoop.v and coq/Gen/FuncsInt.v from the Go source under
 # $VERIF_REPO (default /repo); see DESIGN.md A.8 and tools/gen_funcs/main.go.  Funcs.v: the kernel
 # functions of rtree and geom over the carrier of coq/Base/FOps.v; FuncsCarto.v: the nine projections of
 # package carto over the carrier of coq/Base/FOpsT.v (tie: coq/Proofs/Funcs_tie_Carto.v, property C19);
 # FuncsLoop.v: functions of geom WITH LOOPS over sequences (coq/Base/FLoop.v; ties:
-# coq/Proofs/Funcs_tie_Loop_*.v, properties C09 C12 C14 C17 C18).
+# coq/Proofs/Funcs_tie_Loop_*.v, properties C09 C12 C14 C17 C18); FuncsInt.v: integer / bit level functions
+# (varints of TWKB incl. encoding/binary of the toolchain in use, R-tree bounds; coq/Base/FInt.v; ties:
+# coq/Proofs/Funcs_tie_Int_*.v, properties C07 C11).
 # Idempotent: a file is replaced only when its content changes, so that `make` rebuilds the tie files
 # (coq/Proofs/Funcs_tie_*.v) only after a change of a translated body.
-# If the generator itself cannot run, all three files are removed: the tie files then fail to compile,
+# If the generator itself cannot run, all four files are removed: the tie files then fail to compile,
 # which the orchestrator reports as a broken proof obligation (never a stale, silently passing tie).
-# Output paths can be overridden (scratch runs): GEN_FUNCS_OUT, GEN_FUNCS_CARTO_OUT, GEN_FUNCS_LOOP_OUT.
+# Output paths can be overridden (scratch runs): GEN_FUNCS_OUT, GEN_FUNCS_CARTO_OUT, GEN_FUNCS_LOOP_OUT, GEN_FUNCS_INT_OUT.
 set -u
 VERIF=$(cd "$(dirname "$0")/.." && pwd)
 REPO=${VERIF_REPO:-/repo}
 OUT=${GEN_FUNCS_OUT:-$VERIF/coq/Gen/Funcs.v}
 OUTC=${GEN_FUNCS_CARTO_OUT:-$VERIF/coq/Gen/FuncsCarto.v}
 OUTL=${GEN_FUNCS_LOOP_OUT:-$VERIF/coq/Gen/FuncsLoop.v}
+OUTI=${GEN_FUNCS_INT_OUT:-$VERIF/coq/Gen/FuncsInt.v}
 export GOFLAGS=-mod=mod GOPROXY=off GOSUMDB=off GOTOOLCHAIN=local
-mkdir -p "$(dirname "$OUT")" "$(dirname "$OUTC")" "$(dirname "$OUTL")"
+mkdir -p "$(dirname "$OUT")" "$(dirname "$OUTC")" "$(dirname "$OUTL")" "$(dirname "$OUTI")"
 TMP=$(mktemp "${TMPDIR:-/tmp}/Funcs.XXXXXX") || exit 2
 TMPC=$(mktemp "${TMPDIR:-/tmp}/FuncsCarto.XXXXXX") || exit 2
 TMPL=$(mktemp "${TMPDIR:-/tmp}/FuncsLoop.XXXXXX") || exit 2
-trap 'rm -f "$TMP" "$TMPC" "$TMPL"' EXIT
-if ! (cd "$VERIF/tools/gen_funcs" && go run . -repo "$REPO" -o "$TMP" -ocarto "$TMPC" -oloop "$TMPL"); then
-    echo "gen_funcs.sh: generator failed; removing $OUT, $OUTC and $OUTL" >&2
-    rm -f "$OUT" "$OUTC" "$OUTL"
+TMPI=$(mktemp "${TMPDIR:-/tmp}/FuncsInt.XXXXXX") || exit 2
+trap 'rm -f "$TMP" "$TMPC" "$TMPL" "$TMPI"' EXIT
+if ! (cd "$VERIF/tools/gen_funcs" && go run . -repo "$REPO" -o "$TMP" -ocarto "$TMPC" -oloop "$TMPL" -oint "$TMPI"); then
+    echo "gen_funcs.sh: generator failed; removing $OUT, $OUTC, $OUTL and $OUTI" >&2
+    rm -f "$OUT" "$OUTC" "$OUTL" "$OUTI"
     exit 2
 fi
-for pair in "$TMP|$OUT" "$TMPC|$OUTC" "$TMPL|$OUTL"; do
+for pair in "$TMP|$OUT" "$TMPC|$OUTC" "$TMPL|$OUTL" "$TMPI|$OUTI"; do
     src=${pair%%|*}
     dst=${pair#*|}
     if [ -f "$dst" ] && cmp -s "$src" "$dst"; then
